@@ -210,7 +210,7 @@ fn explore(ctx: &mut Ctx) {
     let copy_chains = chains(false);
     ctx.count_max("max_from_chains", from_chains.len() as u64);
     ctx.count_max("max_copy_chains", copy_chains.len() as u64);
-    let n = ctx.tier.pick(10, 18);
+    let n = ctx.tier.pick(12, 18);
     let mut all_bits: Vec<BitsDesc> = Vec::new();
     for len in 0..=n {
         for word in 0..(1u64 << len) {
@@ -284,7 +284,7 @@ fn explore(ctx: &mut Ctx) {
     }
 
     // Builder decompositions of run lists with <= 3 runs of length <= 4.
-    let max_len = ctx.tier.pick(4, 6);
+    let max_len = ctx.tier.pick(5, 6);
     let gaps = [0usize, 1, 2];
     let mut lists: Vec<Vec<(usize, usize)>> = vec![vec![]];
     for nruns in 1..=3usize {
